@@ -408,6 +408,54 @@ fn run_spec<C: AnsCombo>(segs: &[Vec<&str>]) -> String {
     format!("{} {}", show_list(out), verdict)
 }
 
+/// `anssweep W S B P lo hi`: complete single-step space.  For every state in `lo..hi` (with a
+/// one-word bulk whenever the invariant demands one), every `(cum, p)` with `cum + p <= 2^P`,
+/// `0 < p < 2^P`: one `encode_symbol` and one `decode_symbol` (table `[0, cum, cum+p, 2^P]`);
+/// all results are folded into a digest.  Output: `count digest`.
+fn run_sweep<C: AnsCombo>(head: &[&str], w: u32, s: u32) -> String {
+    let (b, p, lo, hi) = match (parse_hex(head[3]), parse_hex(head[4]), parse_hex(head[5]), parse_hex(head[6])) {
+        (Some(b), Some(p), Some(lo), Some(hi)) => (b as u32, p as u32, lo, hi),
+        _ => return "bad-op".into(),
+    };
+    let total = pow2(p);
+    let mut h = DIGEST_INIT;
+    let mut count: u128 = 0;
+    for st in lo..hi {
+        let bulk: Vec<u128> = if st >= pow2(s - w) { vec![0xab & (pow2(w) - 1)] } else { vec![] };
+        for pr in 1..total {
+            for cum in 0..=(total - pr) {
+                let mut c: AnsCoder<C::W, C::S> = AnsCoder::from_raw_parts(words::<C::W>(&bulk), from_u128(st));
+                match C::enc(&mut c, b, p, Some((cum, pr))) {
+                    Some(o) if o == "ok" => {}
+                    Some(o) => return format!("{:x} {:x} {:x} => {}", st, cum, pr, o),
+                    None => return "unsupported".into(),
+                }
+                h = digest_step(h, to_u128(c.state()));
+                h = digest_step(h, c.bulk().len() as u128);
+                h = digest_step(h, c.bulk().last().map(|&x| to_u128(x)).unwrap_or(0));
+                let mut cdf = vec![0u128];
+                if cum > 0 {
+                    cdf.push(cum);
+                }
+                cdf.push(cum + pr);
+                if cum + pr < total {
+                    cdf.push(total);
+                }
+                let mut d: AnsCoder<C::W, C::S> = AnsCoder::from_raw_parts(words::<C::W>(&bulk), from_u128(st));
+                let sym = match C::dec(&mut d, b, p, &cdf) {
+                    Some(o) => parse_hex(&o).unwrap_or(0xffff),
+                    None => return "unsupported".into(),
+                };
+                h = digest_step(h, sym);
+                h = digest_step(h, to_u128(d.state()));
+                h = digest_step(h, d.bulk().len() as u128);
+                count += 2;
+            }
+        }
+    }
+    format!("{:x} {:x}", count, h)
+}
+
 pub fn run(segs: &[Vec<&str>]) -> String {
     let head = &segs[0];
     if head.len() < 3 {
@@ -425,6 +473,7 @@ pub fn run(segs: &[Vec<&str>]) -> String {
                 "ansc" if head.len() == 4 => run_cursor::<$C>(segs, false),
                 "ansd" if head.len() == 3 && segs.len() >= 2 => run_cursor::<$C>(segs, true),
                 "ansspec" if head.len() == 3 => run_spec::<$C>(segs),
+                "anssweep" if head.len() == 7 => run_sweep::<$C>(head, w as u32, s as u32),
                 _ => "bad-op".into(),
             }
         };
@@ -724,6 +773,23 @@ pub fn doc_vectors() -> Vec<String> {
 pub fn gen(rng: &mut Rng, tier: &str, out: &mut Vec<String>) {
     let n_per_combo = if tier == "thorough" { 6000 } else { 350 };
     out.extend(doc_vectors());
+    // complete single-step spaces at (u8, u16): every state x every (cum, p)
+    let ps: &[u32] = if tier == "thorough" { &[1, 2, 3, 4, 5] } else { &[1, 2, 3] };
+    for &p in ps {
+        let chunk = 0x1000u128;
+        let mut lo = 0u128;
+        while lo < 0x10000 {
+            out.push(format!("anssweep 8 10 8 {:x} {:x} {:x}", p, lo, lo + chunk));
+            lo += chunk;
+        }
+    }
+    // slices of the (u8, u32) and (u16, u32) spaces around the normalisation threshold
+    for (w, s, b, p) in [(8u32, 32u32, 8u32, 3u32), (16, 32, 16, 2), (16, 32, 8, 4)] {
+        let thr = pow2(s - w);
+        for (lo, hi) in [(0u128, 0x400u128), (thr - 0x200, thr + 0x200), (pow2(s) - 0x400, pow2(s))] {
+            out.push(format!("anssweep {:x} {:x} {:x} {:x} {:x} {:x}", w, s, b, p, lo, hi));
+        }
+    }
     for (w, s, bps) in combos() {
         for _ in 0..n_per_combo {
             out.push(gen_history(rng, w, s, &bps, 24));
